@@ -7,18 +7,37 @@ def zx(x,w): return z3.ZeroExt(w-x.size(),x) if x.size()<w else x
 class QueueSpec(Spec):
   prop_ids=('C17',)
   kind='normal'; flavor='enqdeq'; cls=None; mod=None
+  fixed=None          # capacity of classes without a size parameter
   def configs(s,tier):
+    if s.fixed is not None: return [dict(num_entries=s.fixed,width=w) for w in (1,8)]
     ns=(1,2,3,4) if tier=='quick' else (1,2,3,4,5,7,8)
+    if s.flavor=='valrdy': ns=tuple(n for n in ns if n>=2)
     return [dict(num_entries=n,width=w) for n in ns for w in (1,8)]
   def bmc_depth(s,cfg): return 2*cfg['num_entries']+4
   def build(s,cfg):
     import importlib
     from pymtl3 import mk_bits
     m=importlib.import_module(s.mod)
+    if s.fixed is not None: return getattr(m,s.cls)(mk_bits(cfg['width']))
+    if s.flavor=='valrdy': return getattr(m,s.cls)(cfg['num_entries'],mk_bits(cfg['width']))
     return getattr(m,s.cls)(mk_bits(cfg['width']),cfg['num_entries'])
   # ---- abstraction: (count, [entries from the head])
   def absn(s,V,which):
     n=V.cfg['num_entries']; R=(V.S if which=='st' else V.N)
+    if s.cls=='BypassQueue2RTL':       # two 1-entry bypass queues in series: the head is q2's buffer when q2 is full
+      f1,f2=R('s.q1.full.out'),R('s.q2.full.out'); b1,b2=R('s.q1.buffer.out'),R('s.q2.buffer.out')
+      return zx(f1,8)+zx(f2,8),[z3.If(f2==1,b2,b1),b1]
+    if s.fixed==1:
+      full=R('s.full.out' if s.flavor=='enrdy' else 's.full'); return zx(full,8),[R('s.buffer.out')]
+    if s.flavor=='valrdy':
+      e=R('s.ctrl.enq_ptr'); d=R('s.ctrl.deq_ptr'); f=R('s.ctrl.full'); N8=z3.BitVecVal(n,8)
+      c=z3.If(f==1,N8,z3.If(z3.UGE(e,d),zx(e,8)-zx(d,8),N8-(zx(d,8)-zx(e,8))))
+      regs=[R(f's.dpath.queue.regs[{i}]') for i in range(n)]; ent=[]
+      for i in range(n):
+        x=regs[0]
+        for hv in range(n): x=z3.If(d==hv,regs[(hv+i)%n],x)
+        ent.append(x)
+      return c,ent
     if n==1:
       full=R('s.q.full'); return zx(full,8),[R('s.q.entry')]
     c=R('s.ctrl.count'); h=R('s.ctrl.head')
@@ -34,11 +53,22 @@ class QueueSpec(Spec):
     return zx(c,8),ent
   def inv(s,V,which='st'):
     n=V.cfg['num_entries']
-    if n==1: return z3.BoolVal(True)
+    if s.cls=='BypassQueue2RTL': return z3.BoolVal(True)       # every combination of the two full bits is reachable
+    if s.fixed is not None or n==1: return z3.BoolVal(True)
     R=V.S
+    if s.flavor=='valrdy':
+      e=zx(R('s.ctrl.enq_ptr'),8); d=zx(R('s.ctrl.deq_ptr'),8); f=R('s.ctrl.full')
+      return z3.And(z3.ULT(e,n),z3.ULT(d,n),z3.Implies(f==1,e==d))
     c=zx(R('s.ctrl.count'),8); h=zx(R('s.ctrl.head'),8); t=zx(R('s.ctrl.tail'),8)
     return z3.And(z3.ULE(c,n),z3.ULT(h,n),z3.ULT(t,n), t==z3.URem(h+c,z3.BitVecVal(n,8)))
   def io(s,V):
+    if s.flavor=='enrdy':     # push interfaces: the producer raises enq.en (only when enq.rdy), the queue raises deq.en (only when deq.rdy)
+      return dict(enq_fire=V.I('s.enq.en')==1,deq_fire=V.O('s.deq.en')==1,enq_rdy=V.O('s.enq.rdy')==1,deq_rdy=None,
+                  enq_msg=V.I('s.enq.msg'),deq_msg=V.O('s.deq.msg'),enq_offer=V.I('s.enq.en')==1,deq_offer=V.I('s.deq.rdy')==1)
+    if s.flavor=='valrdy':
+      return dict(enq_fire=z3.And(V.I('s.enq.val')==1,V.O('s.enq.rdy')==1),deq_fire=z3.And(V.O('s.deq.val')==1,V.I('s.deq.rdy')==1),
+                  enq_rdy=V.O('s.enq.rdy')==1,deq_rdy=V.O('s.deq.val')==1,enq_msg=V.I('s.enq.msg'),deq_msg=V.O('s.deq.msg'),
+                  enq_offer=V.I('s.enq.val')==1,deq_offer=V.I('s.deq.rdy')==1)
     if s.flavor=='enqdeq':
       return dict(enq_fire=V.I('s.enq.en')==1,deq_fire=V.I('s.deq.en')==1,enq_rdy=V.O('s.enq.rdy')==1,deq_rdy=V.O('s.deq.rdy')==1,
                   enq_msg=V.I('s.enq.msg'),deq_msg=V.O('s.deq.ret'),enq_offer=V.I('s.enq.en')==1,deq_offer=V.I('s.deq.en')==1)
@@ -46,6 +76,7 @@ class QueueSpec(Spec):
                 enq_rdy=V.O('s.recv.rdy')==1,deq_rdy=V.O('s.send.val')==1,enq_msg=V.I('s.recv.msg'),deq_msg=V.O('s.send.msg'),
                 enq_offer=V.I('s.recv.val')==1,deq_offer=V.I('s.send.rdy')==1)
   def legal(s,V):
+    if s.flavor=='enrdy': return z3.Implies(V.I('s.enq.en')==1,V.O('s.enq.rdy')==1)
     if s.flavor=='enqdeq':
       return z3.And(z3.Implies(V.I('s.enq.en')==1,V.O('s.enq.rdy')==1),z3.Implies(V.I('s.deq.en')==1,V.O('s.deq.rdy')==1))
     return z3.BoolVal(True)
@@ -56,7 +87,13 @@ class QueueSpec(Spec):
     enq,deq=io['enq_fire'],io['deq_fire']
     cl=[]
     # ---- ready/valid table (statement of C17)
-    if s.kind=='normal':
+    if s.flavor=='enrdy':
+      # push-style dequeue side: the queue sends (deq.en) exactly when the consumer is ready and a message is available
+      avail=z3.Not(empty) if s.kind!='bypass' else z3.Or(z3.Not(empty),io['enq_offer'])
+      cl.append(('deq-fires-iff-consumer-ready-and-message-available', io['deq_fire']==z3.And(io['deq_offer'],avail)))
+      if s.kind=='pipe': cl.append(('enq-ready-iff-not-full-or-dequeue-this-cycle', io['enq_rdy']==z3.Or(z3.Not(full),z3.And(full,io['deq_offer']))))
+      else: cl.append(('enq-ready-iff-not-full', io['enq_rdy']==z3.Not(full)))
+    elif s.kind=='normal':
       cl.append(('enq-ready-iff-not-full', io['enq_rdy']==z3.Not(full)))
       cl.append(('deq-ready-iff-not-empty', io['deq_rdy']==z3.Not(empty)))
     elif s.kind=='pipe':
@@ -66,7 +103,8 @@ class QueueSpec(Spec):
       cl.append(('enq-ready-iff-not-full', io['enq_rdy']==z3.Not(full)))
       cl.append(('deq-ready-iff-not-empty-or-enqueue-this-cycle', io['deq_rdy']==z3.Or(z3.Not(empty),z3.And(empty,io['enq_offer']))))
     # ---- occupancy
-    cl.append(('count-output-is-occupancy', zx(V.O('s.count'),8)==c))
+    if s.flavor in('enqdeq','stream'): cl.append(('count-output-is-occupancy', zx(V.O('s.count'),8)==c))
+    if s.flavor=='valrdy' and s.fixed is None: cl.append(('free-entries-output-is-capacity-minus-occupancy', zx(V.O('s.num_free_entries'),8)==N-c))
     cl.append(('occupancy-never-exceeds-capacity', z3.ULE(c2,N)))
     # ---- delivered message is the oldest accepted one (bypass: the incoming one when empty)
     head_msg = ent[0] if s.kind!='bypass' else z3.If(empty,io['enq_msg'],ent[0])
@@ -93,11 +131,12 @@ class QueueSpec(Spec):
     if n>1 or s.kind!='normal': cv.append(('enqueue-and-dequeue-in-one-cycle',z3.And(io['enq_fire'],io['deq_fire'])))
     return cv
   def reset_clauses(s,V):
+    if s.flavor=='enrdy' and s.cls in('NormalQueue1RTL','PipeQueue1RTL'): return []     # their `full` register is a Reg without reset logic (C17 says nothing about reset)
     c2,_=s.absn(V,'nxt')
     return [('reset-empties-the-queue', c2==0)]
 
-def mk(kind,flavor,cls,mod):
-  sp=QueueSpec(); sp.kind=kind; sp.flavor=flavor; sp.cls=cls; sp.mod=mod
+def mk(kind,flavor,cls,mod,fixed=None):
+  sp=QueueSpec(); sp.kind=kind; sp.flavor=flavor; sp.cls=cls; sp.mod=mod; sp.fixed=fixed
   sp.key=f"{mod.replace('.','/')}.py::{cls}"
   return sp
 
@@ -106,4 +145,17 @@ SPECS=[mk('normal','enqdeq','NormalQueueRTL','pymtl3.stdlib.queues.queues'),
        mk('bypass','enqdeq','BypassQueueRTL','pymtl3.stdlib.queues.queues'),
        mk('normal','stream','NormalQueueRTL','pymtl3.stdlib.stream.queues'),
        mk('pipe','stream','PipeQueueRTL','pymtl3.stdlib.stream.queues'),
-       mk('bypass','stream','BypassQueueRTL','pymtl3.stdlib.stream.queues')]
+       mk('bypass','stream','BypassQueueRTL','pymtl3.stdlib.stream.queues'),
+       # enable/ready (push) queues
+       mk('normal','enrdy','NormalQueue1RTL','pymtl3.stdlib.queues.enrdy_queues',1),
+       mk('pipe','enrdy','PipeQueue1RTL','pymtl3.stdlib.queues.enrdy_queues',1),
+       mk('bypass','enrdy','BypassQueue1RTL','pymtl3.stdlib.queues.enrdy_queues',1),
+       mk('bypass','enrdy','BypassQueue2RTL','pymtl3.stdlib.queues.enrdy_queues',2),
+       ]
+# pymtl3/stdlib/queues/valrdy_queues.py cannot be imported on this tree (it imports InValRdyIfc / OutValRdyIfc, which pymtl3.stdlib.ifcs
+# no longer defines), so its queues cannot be instantiated and are not library queues anyone can use; the 'valrdy' flavour above is kept
+# for the day the module is repaired:
+VALRDY_SPECS=[mk('normal','valrdy','NormalQueue1RTL','pymtl3.stdlib.queues.valrdy_queues',1),
+       mk('pipe','valrdy','PipeQueue1RTL','pymtl3.stdlib.queues.valrdy_queues',1),
+       mk('bypass','valrdy','BypassQueue1RTL','pymtl3.stdlib.queues.valrdy_queues',1),
+       mk('normal','valrdy','NormalQueueRTL','pymtl3.stdlib.queues.valrdy_queues')]
